@@ -248,40 +248,108 @@ def scan_shared(tree, parents, class_attrs, module_names):
     return out
 
 
-def _exact_memo(tree, parents, store, table):
-    """`T[key] = value` is an exact memo - and therefore cannot change any result - when: it sits in a function without
-    self / cls, the key is exactly the function's parameters (one name, or a tuple of all of them, in any order), the
-    stored value is not a mutable container, and the table is touched nowhere else in the module."""
-    if not (isinstance(store, ast.Subscript) and isinstance(store.ctx, ast.Store) and store.value is table):
-        return False
-    fn = _direct_function(store, parents)
-    if not isinstance(fn, ast.FunctionDef):
-        return False
-    params = [a.arg for a in fn.args.posonlyargs + fn.args.args + fn.args.kwonlyargs]
-    if not params or params[0] in ("self", "cls") or fn.args.vararg or fn.args.kwarg:
-        return False
-    key = store.slice
-    names = [key.id] if isinstance(key, ast.Name) else [e.id for e in key.elts if isinstance(e, ast.Name)] if isinstance(key, ast.Tuple) else []
-    if isinstance(key, ast.Tuple) and len(names) != len(key.elts):
-        return False
-    if sorted(names) != sorted(params):
-        return False
-    # parameters must not be rebound before the store
-    for n in ast.walk(fn):
-        if isinstance(n, ast.Name) and isinstance(n.ctx, ast.Store) and n.id in params:
-            return False
-    st = parents.get(store)
-    if not isinstance(st, ast.Assign) or _mutable_expr(st.value):
-        return False
+DEFERRED_MEMOS = []      # (node, function name, table text): memo-shaped stores with a computed key, judged by R-HISTORY
+
+
+def _table_uses_confined(tree, parents, table, fn):
     want = ast.dump(table)
     for n in ast.walk(tree):
         if isinstance(n, (ast.Attribute, ast.Name)) and ast.dump(n) == want and n is not table:
             if _direct_function(n, parents) is not fn:
                 par = parents.get(n)
-                if not (isinstance(par, (ast.Assign, ast.AnnAssign)) and not isinstance(parents.get(par), ast.FunctionDef)
-                        and _direct_function(par, parents) is None):
+                if not (isinstance(par, (ast.Assign, ast.AnnAssign)) and _direct_function(par, parents) is None):
                     return False
     return True
+
+
+def _memo_store_parts(node, table, parents):
+    """(key expr, value expr) of a store into `table`: T[k] = v  /  T.setdefault(k, v); else None."""
+    if isinstance(node, ast.Subscript) and isinstance(node.ctx, ast.Store) and node.value is table:
+        st = parents.get(node)
+        if isinstance(st, ast.Assign) and len(st.targets) == 1:
+            return node.slice, st.value
+    if isinstance(node, ast.Call) and isinstance(node.func, ast.Attribute) and node.func.attr == "setdefault" \
+            and node.func.value is table and len(node.args) == 2:
+        return node.args[0], node.args[1]
+    return None
+
+
+def _exact_memo(tree, parents, node, table):
+    """Is this mutation of a shared table part of a memo that cannot change any result?
+    exact   - (a) in a function without self / cls the key is exactly the function's parameters, or (b) the stored value
+              is g(K) for a library function g and the key is that very argument (list) K; the value is not a mutable
+              container; the table is used in this one function only.  Evictions (clear / pop / popitem / del) of a table
+              all of whose stores are exact are fine as well.
+    deferred- memo-shaped, but the key is COMPUTED from the arguments without string transformations (len, arithmetic,
+              indexing): not decidable here; recorded for R-HISTORY, which accepts it only if the memoising function is
+              exercised by the history script and every result equals that of a fresh process.
+    Returns True when the mutation needs no report here."""
+    fn = _direct_function(node, parents)
+    if not isinstance(fn, ast.FunctionDef) or not _table_uses_confined(tree, parents, table, fn):
+        return False
+    stores = []
+    for n in ast.walk(fn):
+        base = n.value if isinstance(n, ast.Subscript) else (n.func.value if isinstance(n, ast.Call) and isinstance(n.func, ast.Attribute) else None)
+        if base is not None and ast.dump(base) == ast.dump(table):
+            parts = _memo_store_parts(n, base, parents)
+            if parts is not None:
+                stores.append((n, parts))
+    if not stores:
+        return False
+    verdicts = [_memo_verdict(fn, k, v) for _, (k, v) in stores]
+    if any(v == "no" for v in verdicts):
+        return False
+    is_store = any(n is node for n, _ in stores)
+    is_evict = isinstance(node, ast.Call) and isinstance(node.func, ast.Attribute) and node.func.attr in ("clear", "pop", "popitem")
+    if not (is_store or is_evict):
+        return False
+    if any(v == "deferred" for v in verdicts):
+        DEFERRED_MEMOS.append((node, fn.name, ast.unparse(table)))
+    return True
+
+
+def _memo_verdict(fn, key, value):
+    params = [a.arg for a in fn.args.posonlyargs + fn.args.args + fn.args.kwonlyargs]
+    rebound = {n.id for n in ast.walk(fn) if isinstance(n, ast.Name) and isinstance(n.ctx, ast.Store)}
+
+    def resolve(e, depth=0):      # a local bound exactly once stands for its value
+        if isinstance(e, ast.Name) and e.id not in params and depth < 3:
+            binds = [a.value for a in ast.walk(fn) if isinstance(a, ast.Assign) and len(a.targets) == 1 and
+                     isinstance(a.targets[0], ast.Name) and a.targets[0].id == e.id]
+            if len(binds) == 1:
+                return resolve(binds[0], depth + 1)
+            if len(binds) >= 2:       # v = T.get(k); if v is None: v = g(k)   (the same g(k) possibly on several branches)
+                calls = [b for b in binds if not (isinstance(b, ast.Call) and isinstance(b.func, ast.Attribute) and b.func.attr == "get")]
+                if calls and len({ast.dump(c) for c in calls}) == 1:
+                    return resolve(calls[0], depth + 1)
+        return e
+    key, value = resolve(key), resolve(value)
+    if _mutable_expr(value):
+        return "no"
+    key_parts = list(key.elts) if isinstance(key, ast.Tuple) else [key]
+    simple = lambda e: isinstance(e, ast.Name) or (isinstance(e, ast.Attribute) and simple(e.value))
+    # (a) key = exactly the parameters of a self-less function
+    if params and params[0] not in ("self", "cls") and not fn.args.vararg and not fn.args.kwarg and \
+            all(isinstance(e, ast.Name) for e in key_parts) and sorted(e.id for e in key_parts) == sorted(params) and \
+            not (set(params) & rebound):
+        return "exact"
+    # (b) value = g(K) with the key being exactly that argument list
+    if isinstance(value, ast.Call) and not value.keywords and all(simple(e) for e in key_parts) and \
+            [ast.dump(x) for x in value.args] == [ast.dump(x) for x in key_parts] and \
+            not any(isinstance(e, ast.Name) and e.id in rebound and e.id not in params for e in key_parts):
+        return "exact"
+    # computed key: string transformations lose information by nature
+    for n in ast.walk(key):
+        if isinstance(n, ast.Call) and isinstance(n.func, ast.Attribute):
+            return "no"
+        if isinstance(n, ast.Call) and isinstance(n.func, ast.Name) and n.func.id not in ("len", "tuple", "int", "abs", "min", "max", "range"):
+            return "no"
+        if isinstance(n, (ast.JoinedStr, ast.Subscript)) and isinstance(n, ast.JoinedStr):
+            return "no"
+    names = {n.id for n in ast.walk(key) if isinstance(n, ast.Name)} - {"len", "tuple", "int", "abs", "min", "max", "range"}
+    if names and params and params[0] not in ("self", "cls") and names <= set(params) and not (names & rebound):
+        return "deferred"
+    return "no"
 
 
 def _is_shared_name(name_node, parents, module_names):
@@ -641,8 +709,16 @@ def classify_sink(model, sf: SetFlow, f: FuncInfo, n, kind):
                 else:
                     ops.append(x)
             flat(top)
-            opens = lambda x: (isinstance(x, ast.Constant) and isinstance(x.value, str) and x.value.startswith("[")) or \
-                (isinstance(x, ast.IfExp) and opens(x.body) and opens(x.orelse))
+            def opens(x, depth=0):
+                if isinstance(x, ast.Constant) and isinstance(x.value, str) and x.value.startswith("["):
+                    return True
+                if isinstance(x, ast.IfExp):
+                    return opens(x.body, depth) and opens(x.orelse, depth)
+                if isinstance(x, ast.Name) and depth == 0:        # a local bound once to such an opening
+                    binds = [a.value for a in ast.walk(f.node) if isinstance(a, ast.Assign) and
+                             any(isinstance(t, ast.Name) and t.id == x.id for t in a.targets)]
+                    return len(binds) == 1 and opens(binds[0], 1)
+                return False
             closes = lambda x: isinstance(x, ast.Constant) and isinstance(x.value, str) and x.value.endswith("]")
             if ops and opens(ops[0]) and closes(ops[-1]):
                 return "ok", "member list of a character class '[' + ... + ']': re ignores member order"
@@ -780,6 +856,9 @@ class P:
 '''
 
 
+HISTORY_ENTERED = {}
+
+
 def _history(ctx, model):
     """One interpreter instance stands for one process: class-level and module-level objects are evaluated once and
     live on.  A script of constructions and operations is interpreted three times in the same instance; every step
@@ -799,6 +878,13 @@ def _history(ctx, model):
         K(GR, "Group", K(GR, "Capture", "ab"), True), K(OP, "Either", "a", "b|c", "d"), K(OP, "Concat", "a", "b|c"),
         K(ASR, "FollowedBy", "a", "b"), K(ASR, "NotPrecededBy", "a", "b"), ("pregex", "(ab)"), ("pregex", "\\d"), ("pregex", "a|b"),
     ]
+    # the meta patterns over their whole small parameter domains (all 15 bases in both directions, bounds, formats)
+    ESS = "pregex.meta.essentials"
+    script += [K(ESS, "Numeral", b) for b in range(2, 17)] + [K(ESS, "Numeral", b, 2, 4) for b in (16, 11, 3, 2)]
+    script += [K(ESS, "Word"), K(ESS, "Word", 2, 5), K(ESS, "WordContains", "ab"), K(ESS, "WordStartsWith", "ab"), K(ESS, "WordEndsWith", "ab"),
+               K(ESS, "Integer", 0, 25), K(ESS, "Decimal", 0, 9, 1, 2), K(ESS, "NegativeDecimal", 0, 9, 2, 3),
+               K(ESS, "UnsignedDecimal", 0, 9, 1, 2), K(ESS, "Decimal", 0, 9, 1, 2), K(ESS, "IPv4"), K(ESS, "IPv6"), K(ESS, "IPv4", True),
+               K(ESS, "Date", "dd/mm/yyyy"), K(ESS, "Date", "d-m-yy"), K(ESS, "Date", "mm/dd/yyyy"), K(ESS, "Date", "dd/mm/yyyy")]
 
     def ev(it, step):
         if isinstance(step, str) or isinstance(step, (int, bool)):
@@ -822,9 +908,19 @@ def _history(ctx, model):
             return pattern_of(v) if isinstance(v, Obj) else repr(v)
         except PyRaise as e:
             return "!" + e.name
-    shared = Interp(model, Hooks(), fuel=50_000_000)
-    rounds = [[text(shared, st) for st in script] for _ in range(3)]
-    fresh = [text(Interp(model, Hooks(), fuel=5_000_000), st) for st in script]
+    entered = {}
+
+    class Log(Hooks):
+        def intercept(self, interp, target, args, kwargs, node):
+            nm = getattr(getattr(target, "node", None), "name", None)
+            if nm is not None:
+                entered[nm] = entered.get(nm, 0) + 1
+            return NotImplemented
+    shared = Interp(model, Log(), fuel=500_000_000)
+    rounds = [[text(shared, st) for st in script] for _ in range(2)]
+    HISTORY_ENTERED.clear()
+    HISTORY_ENTERED.update(entered)
+    fresh = [text(Interp(model, Hooks(), fuel=50_000_000), st) for st in script]
     f_cls = model.method("pregex.core.classes", "__Class", "__init__")
     for i, st in enumerate(script):
         label = _step_label(st)
@@ -835,7 +931,7 @@ def _history(ctx, model):
             ctx.violation("R-HISTORY", where.relpath, where.short, "<result depends on earlier calls>",
                           "the same expression yields different patterns depending on what was built before it in the process",
                           where.node.lineno, inp=label,
-                          detail=f"fresh: {fresh[i]!r}; in the script, rounds 1-3: {[r[i] for r in rounds]}")
+                          detail=f"fresh: {fresh[i]!r}; in the script, rounds: {[r[i] for r in rounds]}")
 
 
 def _step_label(st):
@@ -866,6 +962,7 @@ class Q:
 
 
 def run(ctx, model: Model):
+    DEFERRED_MEMOS.clear()
     from ..absdom import cache_field, pattern_of
     CACHE_FIELD[0] = cache_field(model)
     ctx.explanation = (
@@ -942,6 +1039,17 @@ def run(ctx, model: Model):
 
     # --------------------------------------------------- R-HISTORY (semantic companion of R-NOSHARED / R-WRITEONCE)
     _history(ctx, model)
+    # memo-shaped stores with a computed key were not reported by R-NOSHARED: they are acceptable only if the history
+    # script exercises the memoising function repeatedly (whole parameter domains of the meta patterns, forwards and
+    # backwards) - R-HISTORY has then compared every result with a fresh process
+    for node, fname, table in DEFERRED_MEMOS:
+        n_calls = HISTORY_ENTERED.get(fname, 0)
+        ctx.instance("R-HISTORY", key=("memo", fname, table), sample=f"memo `{table}` in {fname} with a computed key: exercised {n_calls} times by the history script")
+        if n_calls < 6:
+            mod = next((m for m in model.modules.values() if any(x is node for x in ast.walk(m.tree))), None)
+            ctx.violation("R-NOSHARED", mod.relpath if mod else "?", fname, norm_text(_stmt(node, model.parents)),
+                          f"memo on `{table}` with a key computed from the arguments, and the history script does not exercise `{fname}` "
+                          "enough to decide that the key determines the result", node.lineno)
 
     # --------------------------------------------------- R-NOARGMUT
     funcs = list(model.all_functions())
